@@ -116,6 +116,9 @@ def snap(o: Any, depth: int = 0) -> Any:  # noqa: C901
     if isinstance(o, (list, tuple)):
         return [snap(x, depth + 1) for x in o]
     if isinstance(o, dict):
+        if "status" in o and "fun" in o and "x" in o:  # scipy OptimizeResult
+            return {"LP": {"status": snap(o.get("status")), "fun": snap(o.get("fun")),
+                           "x": snap(o.get("x")).get("ND") if o.get("x") is not None else None}}
         return {"D": [[snap(k, depth + 1), snap(v, depth + 1)] for k, v in o.items()]}
     if isinstance(o, (set, frozenset)):
         return {"S": sorted(canon(snap(x, depth + 1)) for x in o)}
